@@ -161,6 +161,11 @@ def body_grid(inp, H, W, N):
     gp = aa.Grid2D(values=pts.reshape(1, N, 2), mask=gm)
     A["grid_scaled_of_pixels"] = hx.attempt(lambda: geo.grid_scaled_2d_from(grid_pixels_2d=gp).slim.array)
     E["grid_scaled_of_pixels"] = scaled
+    # integer-dtype pixel coordinates (what grid_pixel_centres_2d_from returns) must convert like their float values (seed C02-e)
+    ints = np.array(cells, dtype=int).reshape(N, 2)          # slim input keeps its integer dtype inside Grid2D
+    gpi = aa.Grid2D(values=ints, mask=gm)
+    A["grid_scaled_of_integer_pixels"] = hx.attempt(lambda: geo.grid_scaled_2d_from(grid_pixels_2d=gpi).slim.array)
+    E["grid_scaled_of_integer_pixels"] = np.array([[top - c[0] * sy, left + c[1] * sx] for c in cells], dtype=object).reshape(N, 2)
     if not isinstance(A["grid_pixels"], hx.Raised):
         gp2 = aa.Grid2D(values=np.asarray(A["grid_pixels"]).reshape(1, N, 2), mask=gm)
         A["scaled_pixels_scaled"] = hx.attempt(lambda: geo.grid_scaled_2d_from(grid_pixels_2d=gp2).slim.array)
